@@ -77,7 +77,7 @@ def int_kind(width):
     return "native" if width in NATIVE else "arb"
 
 
-def attr_text(ranges, as_list, access, stride=None, stride_sep="=", single_bit_form=True):
+def attr_text(ranges, as_list, access, stride=None, stride_sep="=", single_bit_form=True, order="ras"):
     """ranges: [(lo,hi)] inclusive"""
     def one(lo, hi, in_list):
         if lo == hi and (in_list or single_bit_form):
@@ -94,16 +94,17 @@ def attr_text(ranges, as_list, access, stride=None, stride_sep="=", single_bit_f
         else:
             body = "%d..=%d" % (lo, hi)
             name = "bits"
-    parts = [body]
+    parts = {"r": body}
     if access:
-        parts.append(access)
+        parts["a"] = access
     if stride is not None:
-        parts.append("stride %s %d" % (stride_sep, stride) if stride_sep == "=" else "stride: %d" % stride)
-    return "%s(%s)" % (name, ", ".join(parts))
+        parts["s"] = "stride %s %d" % (stride_sep, stride) if stride_sep == "=" else "stride: %d" % stride
+    # `order`: a permutation of r(ange) a(ccess) s(tride)
+    return "%s(%s)" % (name, ", ".join(parts[k] for k in order if k in parts))
 
 
 def mk_field(name, kind, width, ranges, access="rw", count=None, stride=None, as_list=None, custom=None,
-             ndocs=0, ty=None, stride_sep="=", single_bit_form=True):
+             ndocs=0, ty=None, stride_sep="=", single_bit_form=True, order="ras"):
     if as_list is None:
         as_list = len(ranges) > 1
     if ty is None:
@@ -113,7 +114,7 @@ def mk_field(name, kind, width, ranges, access="rw", count=None, stride=None, as
             ty = "Option<%s>" % custom
         else:
             ty = ty_for_width(kind, width)
-    attr = attr_text(ranges, as_list, access, stride, stride_sep, single_bit_form)
+    attr = attr_text(ranges, as_list, access, stride, stride_sep, single_bit_form, order)
     name_attr = attr.split("(")[0]
     return {
         "name": name, "ty": ty, "count": count, "ndocs": ndocs, "attrs": [attr],
@@ -131,7 +132,7 @@ def mk_bf(ctx, base, fields, classes, default=None, debug=False, docs=False, exp
     }
     if docs:
         for f in fields:
-            if f["ndocs"] == 0:
+            if f["ndocs"] == 0 and not f.get("docs_after"):
                 f["ndocs"] = 1
     return ctx.add(d)
 
@@ -622,6 +623,13 @@ def gen_args(ctx):
     # … and an identifier right behind it is then taken as the default
     valid(32, 'u32, default = "x" @C', default={"syntax": "=", "form": "const", "value": 0x1234})
     valid(64, "u64, default = @C, unknown_flag", default={"syntax": "=", "form": "const", "value": 2 ** 63 + 5})
+    # a user constant whose name collides with a generated item (associated constants live in the impl, not the module)
+    d = mk_bf(ctx, 24, fields(), ["args", "bases"], default={"syntax": "=", "form": "lit", "value": 0xC0FFEE})
+    d["args_text"] = "u24, default = DEFAULT_RAW_VALUE"
+    d["default"] = {"syntax": "=", "form": "const", "value": 0xC0FFEE, "const_name": "DEFAULT_RAW_VALUE"}
+    d = mk_bf(ctx, 16, fields(), ["args", "bases"], default={"syntax": ":", "form": "lit", "value": 0xBEEF})
+    d["args_text"] = "u16, default: ZERO"
+    d["default"] = {"syntax": ":", "form": "const", "value": 0xBEEF, "const_name": "ZERO"}
     invalid(32, "", "no arguments")
     invalid(32, None, "no argument list")
     invalid(32, "u32 = 5", "tokens after the base type")
@@ -729,6 +737,26 @@ def gen_builder(ctx):
     for N in [b for b in bases if b >= 8]:
         fs = [mk_field("lvl", int_kind(N // 2), N // 2, [(0, N // 2 - 1)]), mk_field("rev", int_kind(N - N // 2), N - N // 2, [(N // 2, N - 1)], access="r")]
         mk_bf(ctx, N, fs, ["builder"], default={"syntax": "=", "form": "lit", "value": (2 ** N - 1) ^ 0x5})
+    # arrays with gaps between the elements (stride > width) whose count × stride is exactly the base width: the default's
+    # bits in the gaps must survive; with and without a second field, scalar bool included
+    for N in [b for b in bases if b >= 8 and b % 8 == 0]:
+        ga = mk_field("ga", "arb", 4, [(0, 3)], count=N // 8, stride=8) if N >= 16 else mk_field("ga", "arb", 2, [(0, 1)], count=2, stride=4)
+        mk_bf(ctx, N, [ga], ["builder"], default={"syntax": "=", "form": "lit", "value": (2 ** N - 1) ^ 0x3})
+    for N in [b for b in bases if b >= 12]:
+        gb = mk_field("gb", "arb", 3, [(1, 3)], count=2, stride=(N - 2) // 2)
+        fl = mk_field("fl", "bool", 1, [(0, 0)])
+        mk_bf(ctx, N, [fl, gb], ["builder"], default={"syntax": ":", "form": "lit", "value": 2 ** N - 1})
+    # a writable array overlapping a field declared before it / after it (declaration order must not matter)
+    for N in [b for b in bases if b >= 8]:
+        sc = mk_field("sc", int_kind(3), 3, [(2, 4)])
+        ar = mk_field("ar", "arb", 2, [(0, 1)], count=3)
+        mk_bf(ctx, N, [sc, ar], ["builder", "builder-overlap"], default={"syntax": "=", "form": "lit", "value": 0})
+        sc = mk_field("sc", int_kind(3), 3, [(2, 4)])
+        ar = mk_field("ar", "arb", 2, [(0, 1)], count=3)
+        mk_bf(ctx, N, [ar, sc], ["builder", "builder-overlap"], default={"syntax": "=", "form": "lit", "value": 0})
+        # … and a bool in the middle of a chain
+        mk_bf(ctx, N, [mk_field("a", int_kind(2), 2, [(0, 1)]), mk_field("b", "bool", 1, [(2, 2)]), mk_field("c", int_kind(2), 2, [(3, 4)])],
+              ["builder"], default={"syntax": "=", "form": "lit", "value": 1 << (N - 1)})
     # u128 base with a single 128-bit field
     mk_bf(ctx, 128, [mk_field("all", "native", 128, [(0, 127)])], ["builder", "builder-complete"])
     mk_bf(ctx, 128, [mk_field("all", "signed", 128, [(0, 127)])], ["builder", "builder-complete"])
@@ -813,6 +841,20 @@ def gen_docs(ctx):
         if N >= 16:
             fs.append(mk_field("byte", "signed", 8, [(N - 8, N - 1)], ndocs=1))
             fs.append(mk_field("split", "native", 8, [(N - 4, N - 1), (0, 3)], ndocs=1))
+        # the doc comment written *after* the bit attribute (as `#[doc = …]`), and on both sides of it
+        after = mk_field("after", "arb", 2, [(1, 2)])
+        after["attrs"].append('doc = "documented after the attribute"')
+        after["docs_after"] = 1
+        fs.append(after)
+        both = mk_field("both", "bool", 1, [(2, 2)], ndocs=1)
+        both["attrs"].append('doc = "second half of the documentation"')
+        both["docs_after"] = 1
+        fs.append(both)
+        if not dbg:
+            aa = mk_field("arr_after", "arb", 2, [(0, 1)], count=2)
+            aa["attrs"].append('doc = "array documented after the attribute"')
+            aa["docs_after"] = 1
+            fs.append(aa)
         mk_bf(ctx, N, fs, ["docs"], default=dflt, debug=dbg, docs=True)
     # complete → builder without default
     mk_bf(ctx, 8, [mk_field("lo", "arb", 4, [(0, 3)], ndocs=1), mk_field("hi", "arb", 4, [(4, 7)], ndocs=1)], ["docs", "builder", "builder-complete"], docs=True)
@@ -895,6 +937,20 @@ def gen_invalid(ctx):
             bad(N, mk_field("ms", "arb", 2, [(0, 0), (2, 2)], count=2), "missing stride on a list array")
             good(N, mk_field("ms1", "arb", 2, [(0, 0), (2, 2)], count=2, stride=4), "stride on a list array")
             good(N, mk_field("ms0", "arb", 2, [(0, 0), (2, 2)], count=2, stride=0 + 1), "interleaving stride on a list array")
+    # the three arguments in every order: the checks must not depend on where `stride` / the access specifier is written
+    for k, order in enumerate(["ras", "rsa", "ars", "asr", "sra", "sar"]):
+        good(16, mk_field("og%d" % k, "arb", 4, [(0, 3)], count=4, stride=4, order=order), "argument order " + order)
+        good(16, mk_field("oh%d" % k, "arb", 3, [(1, 3)], count=3, stride=5, order=order, access="r"), "argument order " + order)
+        bad(16, mk_field("ob%d" % k, "arb", 4, [(0, 3)], count=4, stride=2, order=order), "stride below width, argument order " + order)
+        bad(16, mk_field("oc%d" % k, "arb", 4, [(0, 3)], count=4, stride=5, order=order), "array exceeds base, argument order " + order)
+        good(16, mk_field("ol%d" % k, "arb", 2, [(0, 0), (2, 2)], count=2, stride=4, order=order), "list array, argument order " + order)
+        bad(16, mk_field("om%d" % k, "arb", 4, [(0, 1), (4, 5)], count=3, stride=6, order=order), "list array exceeds base, argument order " + order)
+    # arrays of fewer than two elements: single range and range list alike
+    for cnt in [0, 1]:
+        bad(16, mk_field("c%d" % cnt, "arb", 4, [(0, 3)], count=cnt), "array of %d elements" % cnt)
+        bad(16, mk_field("cs%d" % cnt, "arb", 4, [(0, 3)], count=cnt, stride=8), "array of %d elements with stride" % cnt)
+        bad(16, mk_field("cl%d" % cnt, "arb", 4, [(0, 1), (4, 5)], count=cnt, stride=8), "list array of %d elements" % cnt)
+        bad(16, mk_field("cb%d" % cnt, "bool", 1, [(3, 3)], count=cnt), "bool array of %d elements" % cnt)
     # huge stride (macro usize arithmetic): must be rejected
     bad(32, mk_field("hs", "arb", 8, [(0, 7)], count=2, stride=2 ** 64 - 8), "stride wraps usize")
     bad(32, mk_field("hs2", "arb", 8, [(0, 7)], count=2, stride=2 ** 63), "huge stride")
